@@ -76,6 +76,12 @@ def body_literals(b):
                 l = parse_lit(o["k"]["val"])
                 if l:
                     lits.append(l)
+    # `matches!(c, 'a' | 'b')` lowers to a SwitchInt on the char / byte value
+    for _, bl in mirq.blocks(b):
+        t = bl["term"]
+        if t["k"] == "switch" and t.get("op_ty") in ("char", "u8"):
+            for v, _ in t["targets"]:
+                lits.append(("char" if t["op_ty"] == "char" else "u8", int(v)))
     for pl in b.get("promoted_consts") or []:
         for c in pl:
             l = parse_lit(c)
